@@ -37,6 +37,7 @@ func (v *zzStubVerify) DeleteProof(txHash types.Hash)               {}
 // ZZH_C08_verify_proofs: verifyProofs over 1..6 transactions with symbolic verdicts and both
 // proof modes: no crash (in particular none inside a goroutine), every transaction checked
 // exactly once, every rejected one ends up in invalidTx (C03: every IBTP is checked).
+// zz:also C03
 func ZZH_C08_verify_proofs() {
 	exec := zzNewExec(1, big.NewInt(0))
 	modes := []string{"serial", "parallel"}
